@@ -159,8 +159,8 @@ var malformed = []string{"/{a{b}x", "/{a{}}y", "{abc{d}/x", "{abc{ee}/y", "", "{
 
 // ---- paths ---------------------------------------------------------------------------------
 
-var simpleValues = []string{"5", "7", "42", "z", "zq", "Q9", "k", "ac", "x1", "bc"}
-var trickyValues = []string{"ac", "bc", "x1", "y22", "c", "abc", "a1", "", "a", "aa", "aaa", "abc", "a/b", "1/2", "x.html", "1a", "a1", "-", ".", "/", "ab", "b", "9", "12", "é", "\xff", "lo", "log"}
+var simpleValues = []string{"5", "7", "42", "z", "zq", "Q9", "k", "ac", "x1", "bc", "0", "9", "A", "Z", "aZ09"}
+var trickyValues = []string{"ac", "bc", "x1", "y22", "c", "abc", "a1", "", "a", "aa", "aaa", "abc", "a/b", "1/2", "x.html", "1a", "a1", "-", ".", "/", "ab", "b", "9", "12", "é", "\xff", "lo", "log", "0", "A", "Z", "z", "@", "[", "`", "{", ":", "a@", "Z[", "09:", "az{"}
 
 // instantiate replaces every {…} token of a (well-formed) pattern by a value.
 func (g *G) instantiate(p string, vals []string) string {
@@ -771,6 +771,22 @@ func (g *G) onlyRouteFamily(rid int) {
 		if v == p {
 			continue
 		}
+		// table operations that leave p the only route (a Clean of a prefix nothing lives under, a static route that comes
+		// and goes, a Remove of an absent pattern, a strict URL): state kept beside the tree must survive them
+		switch g.intn(7) {
+		case 0:
+			g.emit("clean %d %s", rid, encB(g.pick([]string{"/admin", "/o/x", "/o/{idx", "/z"})))
+		case 1:
+			g.emit("handle %d /zz 90 %%- %s", rid, encL([]string{"GET"}))
+			g.emit("clean %d /zz", rid)
+		case 2:
+			g.emit("handle %d /zz/{q} 91 %%- %s", rid, encL([]string{"GET"}))
+			g.emit("remove %d /zz/{q} %%-", rid)
+		case 3:
+			g.emit("remove %d /nothing %%-", rid)
+		case 4:
+			g.emit("url %d 1 %s %s", rid, encB(p), g.paramsFor(p))
+		}
 		g.emit("handle %d %s %d %s %s", rid, encB(v), 2+i, "%-", encL([]string{g.pick([]string{"GET", "POST", "PUT"})}))
 		probe()
 	}
@@ -987,6 +1003,39 @@ func streamCors(g *G) { // C11, C12
 			g.serveLine("serve", rid, m, p, "", h)
 			reqs = append(reqs, corsReq{m, p, h})
 		}
+		if g.chance(0.5) {
+			// the route table changes between preflights: a further method on a live pattern, a removed method, a new
+			// pattern, a cleaned prefix; the preflights are repeated after every step (the Allow set they answer with, and
+			// whether the requested method is served, are those of the table as it is NOW)
+			steps := [][]string{
+				{"handle %d /a 3 %%- " + encL([]string{"DELETE"})},
+				{"handle %d " + encB("/u/{id}") + " 4 %%- " + encL([]string{"GET", "PATCH"})},
+				{"remove %d /a " + encL([]string{"POST"})},
+				{"remove %d " + encB("/u/{id}") + " " + encL([]string{"PUT"})},
+				{"handle %d /b 5 %%- " + encL([]string{"PUT"})},
+				{"clean %d /u"},
+				{"remove %d /a %%-", "handle %d /a 6 %%- " + encL([]string{"PUT"})},
+			}
+			for _, i := range g.r.Perm(len(steps))[:2+g.intn(4)] {
+				for _, f := range steps[i] {
+					g.emit(f, rid)
+				}
+				g.emit("routes %d", rid)
+				for _, path := range []string{"/a", "/u/5", "/b"} {
+					for _, acrm := range []string{"GET", "POST", "PUT", "DELETE", "PATCH"} {
+						if g.chance(0.45) {
+							continue
+						}
+						h := []kv{{"Origin", "https://a.example"}, {"Access-Control-Request-Method", acrm}}
+						if g.chance(0.3) {
+							h = append(h, kv{"Access-Control-Request-Headers", "Content-Type"})
+						}
+						g.serveLine("serve", rid, "OPTIONS", path, "", h)
+					}
+					g.serveLine("serve", rid, g.pick([]string{"GET", "POST", "PUT", "DELETE"}), path, "", []kv{{"Origin", "https://a.example"}})
+				}
+			}
+		}
 		if g.chance(0.35) {
 			// the same configuration as a Group option: NewGroup applies the options once, every Group.New applies the SAME
 			// option values again to the router it creates
@@ -1058,7 +1107,7 @@ func encVersions(vs []string) string {
 	return strings.Join(out, "+")
 }
 
-var hostNames = []string{"[FE80::1]", "[fe80::1]:8080", "[2001:DB8::A]:443", "[2001:db8::a]", "FE80::1", "example.com", "api.example.com", "API.Example.com", "a.example.com:8080", "example.com:", "example.com:x", "[::1]", "[::1]:80", "b.example.com", "x.y.example.com", "", "*", "localhost", "EXAMPLE.COM", "example.com:80:", ":80", "[", "]", "[]"}
+var hostNames = []string{"[FE80::1]", "[fe80::1]:8080", "[2001:DB8::A]:443", "[2001:db8::a]", "FE80::1", "example.com", "api.example.com", "API.Example.com", "a.example.com:8080", "example.com:", "example.com:x", "[::1]", "[::1]:80", "b.example.com", "x.y.example.com", "", "*", "localhost", "EXAMPLE.COM", "example.com:80:", ":80", "[", "]", "[]", "example.com:9", "example.com:/", "example.com:-1", "api.example.com:8.0", "example.com:0909", "b.example.com:99"}
 var acceptValues = []string{"", "application/json; version=1", "application/json;version=2", "text/html; v=1", "application/json; version=\"1\"", "bad;;", "application/json", "application/json; VERSION=1", "*/*; version=2.0", "a/b; ver=1; version=2"}
 
 func (g *G) groupRequests(gid int, n int) {
@@ -1142,6 +1191,23 @@ func streamGroup(g *G) { // C13
 		g.emit("group-routes %d", gid)
 		g.emit("group-router %d %s", gid, encB(g.pick([]string{"r1", "r2", "r3", "r4", "nope", ""})))
 		g.groupRequests(gid, 10)
+		// several removals and re-creations by name: whatever is kept beside the router list (an index by name, counters)
+		// must follow; every name is looked up after every step
+		for k := 0; k < 2+g.intn(3); k++ {
+			name := g.pick([]string{"r1", "r2", "r3", "r4"})
+			if g.chance(0.6) {
+				g.emit("group-remove %d %s", gid, encB(name))
+			} else {
+				g.emit("group-new %d %d %s %s", gid, rid, encB(name), g.pick([]string{"any", "pv:v:v1", "pv:v:v2"}))
+				g.emit("handle %d /a %d %%- %s", rid, rid*10+1, encL([]string{"GET"}))
+				rid++
+			}
+			g.emit("group-names %d", gid)
+			for _, n := range []string{"r1", "r2", "r3", "r4"} {
+				g.emit("group-router %d %s", gid, encB(n))
+			}
+			g.groupRequests(gid, 4)
+		}
 		gid++
 	}
 }
@@ -1235,7 +1301,7 @@ func streamHosts(g *G) { // C14
 				if g.chance(0.5) {
 					h = g.instantiate(g.pick(doms), []string{"a", "7", "Ab", "x-y", ""})
 					if g.chance(0.3) {
-						h += g.pick([]string{":80", ":", ":x", ":80:90"})
+						h += g.pick([]string{":80", ":", ":x", ":80:90", ":9", ":8099", ":0", ":/", ":-80", ": 80", ":8.0", ":80/", ":+1", ":9a", ":a9"})
 					}
 					if g.chance(0.2) {
 						h = strings.ToUpper(h)
@@ -1347,6 +1413,11 @@ func streamFault(g *G) { // C16
 			}
 		}
 		g.emit("panic-cfg %%- %%- %%-")
+		// later requests are served normally — also two at once (a handler serving a sub-request on the same router)
+		for j := 0; j < 3; j++ {
+			g.emit("nserve %d %s %s %%_ %%- %%! %s %s", rid, encB(g.pick([]string{"GET", "PUT", "HEAD"})), encB(g.pick([]string{"/u/7", "/a", "/u/8"})),
+				encB(g.pick([]string{"PUT", "GET"})), encB(g.pick([]string{"/u/9", "/a", "/none"})))
+		}
 		rid += 2
 		gid++
 	}
@@ -1725,6 +1796,33 @@ func streamIsolation(g *G) { // C07: decoys interleaved with an observed instanc
 		g.serveLine("serve", rid, "HEAD", "/created", "", nil)
 		g.serveLine("serve", dd, "GET", "/page", "", nil)
 		g.serveLine("serve", rid, "GET", "/created", "", nil)
+		// two requests alive at once on one router (a handler serving a sub-request), before and after a recovered panic and
+		// after HEAD requests: contexts are pooled, each request must keep exactly its own parameters
+		pr := 500 + rid%400
+		g.routerLine(pr, routerOpt{name: "pool", recover: g.chance(0.8), recKind: g.pick([]string{"", "", "s500", "w503"}), trace: g.chance(0.3)})
+		g.emit("handle %d %s 81 %%- %s", pr, encB("/slow/{user}"), encL([]string{"GET"}))
+		g.emit("handle %d %s 82 %%- %s", pr, encB("/item/{i}/{j}"), encL([]string{"GET", "POST"}))
+		g.emit("handle %d /boom 83 %%- %s", pr, encL([]string{"GET"}))
+		nested := func(k int) {
+			outer := g.pick([]string{"/slow/u" + strconv.Itoa(k), "/item/a" + strconv.Itoa(k) + "/b", "/nowhere"})
+			inner := g.pick([]string{"/item/i" + strconv.Itoa(k) + "/j", "/slow/s" + strconv.Itoa(k), "/none", "/boom", "*"})
+			g.emit("nserve %d %s %s %%_ %%- %%! %s %s", pr, encB(g.pick([]string{"GET", "GET", "HEAD", "POST", "OPTIONS"})), encB(outer),
+				encB(g.pick([]string{"GET", "GET", "HEAD", "DELETE"})), encB(inner))
+		}
+		nested(0)
+		for k := 1; k <= 3; k++ {
+			if g.chance(0.7) {
+				g.emit("panic-cfg %s %%- %%-", encIntMap(map[int]int{83: k}))
+				g.serveLine("serve", pr, g.pick([]string{"GET", "HEAD"}), "/boom", "", nil)
+				if g.chance(0.3) {
+					nested(10 + k) // the sub-request panics too (inner /boom) or the table is still armed
+				}
+				g.emit("panic-cfg %%- %%- %%-")
+			}
+			nested(k)
+			nested(k + 3)
+			g.serveLine("serve", pr, "GET", "/slow/after"+strconv.Itoa(k), "", nil)
+		}
 		var isoPool []string
 		for s := 0; s < 10; s++ {
 			if g.chance(0.7) {
